@@ -127,6 +127,8 @@ pub struct Peer {
     pub more_dcs: Vec<Arc<DataChannel>>,
     pub audio: Option<Arc<SampleStreamSource>>,
     pub video: Option<Arc<SampleStreamSource>>,
+    /// video codec offered by add_media (default VP8/96)
+    pub video_codec: Option<RtpCodecParameters>,
     keep: Vec<Box<dyn std::any::Any + Send + Sync>>,
 }
 
@@ -141,7 +143,11 @@ impl Peer {
     pub fn new(ctx: &Ctx, k: &PcKnobs, side: usize) -> Peer {
         let cfg = make_config(k, side, &ctx.plan);
         let pc = PeerConnection::new(cfg);
-        Peer { name: if side == 0 { "A" } else { "B" }, pc, dc: None, more_dcs: Vec::new(), audio: None, video: None, keep: Vec::new() }
+        Peer { name: if side == 0 { "A" } else { "B" }, pc, dc: None, more_dcs: Vec::new(), audio: None, video: None, video_codec: None, keep: Vec::new() }
+    }
+    /// a peer with an explicit configuration (C07: depacketizer factory, further hosts)
+    pub fn with_config(name: &'static str, cfg: RtcConfiguration) -> Peer {
+        Peer { name, pc: PeerConnection::new(cfg), dc: None, more_dcs: Vec::new(), audio: None, video: None, video_codec: None, keep: Vec::new() }
     }
     pub fn add_dc(&mut self, negotiated: bool) {
         let cfg = DataChannelConfig { negotiated: if negotiated { Some(0) } else { None }, ordered: true, ..Default::default() };
@@ -167,7 +173,7 @@ impl Peer {
         }
         if k.has_video() && self.video.is_none() {
             let (src, track, fb) = sample_track(rustrtc::media::frame::MediaKind::Video, 64);
-            if self.pc.add_track(track, vp8()).is_ok() {
+            if self.pc.add_track(track, self.video_codec.clone().unwrap_or_else(vp8)).is_ok() {
                 self.video = Some(Arc::new(src));
             }
             self.keep.push(Box::new(fb));
